@@ -51,6 +51,7 @@ type World struct {
 	varsMemo    map[*Term][]*Term
 	feasQuery   bool
 	fpMemo      map[*Term]uint32
+	envPool     []map[ssa.Value]value
 }
 
 // InputRec describes one symbolic input created by a vf* call.
@@ -58,6 +59,7 @@ type InputRec struct {
 	Name  string `json:"name"`
 	Label string `json:"label"`
 	W     uint8  `json:"w"`
+	Env   bool   `json:"env,omitempty"` // created by the engine's environment model (time.Now), not by a vf* call: no native vector slot
 }
 
 type Observation struct {
@@ -90,6 +92,8 @@ type Run struct {
 	deadlockIsViolation bool
 	syncState map[*value]any
 	lastPanic string
+	pinned   map[*Term]uint64 // sub-terms the path condition fixes to a constant (pinned.go)
+	detMemo  map[*Term]uint64
 	schedDependent bool // a scheduling/select choice with more than one option was made
 	dbgLog, parentLog []string
 }
@@ -99,6 +103,10 @@ type dec struct {
 	b  bool
 	v  uint64
 	fp uint32 // structural fingerprint of the condition decided here (replay determinism self-check)
+	// implied: the other side was infeasible, i.e. the path condition already implies the side taken. Such a
+	// condition is remembered in pcSet (so that it is not decided again) but not appended to pc: it adds nothing
+	// logically and would only couple otherwise independent variables in later constraint slices.
+	implied bool
 }
 
 type workItem struct {
@@ -175,6 +183,7 @@ func (w *World) addPC(t *Term) {
 	}
 	r.pcSet[t] = true
 	r.pc = append(r.pc, t)
+	r.pin(t)
 	// split conjunctions so later lookups hit
 	if t.Op == OpBAnd {
 		r.pcSet[t.A] = true
@@ -343,6 +352,9 @@ func (w *World) branchV(c *Term, val uint64) bool {
 	if r.pcSet[nc] {
 		return false
 	}
+	if v, ok := w.detEval(c); ok {
+		return v != 0 // fixed by earlier concretisations: no decision, no query
+	}
 	if r.cursor < len(r.trail) {
 		d := r.trail[r.cursor]
 		if fp := w.fingerprint(c); d.fp != fp {
@@ -361,10 +373,14 @@ func (w *World) branchV(c *Term, val uint64) bool {
 		}
 		r.cursor++
 		r.taken = append(r.taken, d)
-		if d.b {
-			w.addPC(c)
+		dc := c
+		if !d.b {
+			dc = nc
+		}
+		if d.implied {
+			w.notePC(dc)
 		} else {
-			w.addPC(nc)
+			w.addPC(dc)
 		}
 		return d.b
 	}
@@ -380,11 +396,14 @@ func (w *World) branchV(c *Term, val uint64) bool {
 	w.feasQuery = true
 	res, model := w.query(other, true)
 	w.feasQuery = false
+	implied := false
 	switch res {
+	case ResUnsat:
+		implied = true
 	case ResSat:
 		tr := make([]dec, len(r.taken)+1)
 		copy(tr, r.taken)
-		tr[len(r.taken)] = dec{!side, val, w.fingerprint(c)}
+		tr[len(r.taken)] = dec{b: !side, v: val, fp: w.fingerprint(c)}
 		wi := workItem{trail: tr, witness: model}
 		if gDebug {
 			wi.dbgLog = append([]string(nil), r.dbgLog...)
@@ -393,14 +412,29 @@ func (w *World) branchV(c *Term, val uint64) bool {
 	case ResUnknown:
 		r.inconclusive = append(r.inconclusive, "branch feasibility unknown: "+TermString(other, 4))
 	}
-	r.taken = append(r.taken, dec{side, val, w.fingerprint(c)})
+	r.taken = append(r.taken, dec{b: side, v: val, fp: w.fingerprint(c), implied: implied})
 	r.cursor++
-	if side {
-		w.addPC(c)
+	sc := c
+	if !side {
+		sc = nc
+	}
+	if implied {
+		w.notePC(sc)
 	} else {
-		w.addPC(nc)
+		w.addPC(sc)
 	}
 	return side
+}
+
+// notePC records that the path condition implies t without adding t to the conjunction.
+func (w *World) notePC(t *Term) {
+	r := w.run
+	r.pcSet[t] = true
+	r.pin(t)
+	if t.Op == OpBAnd {
+		r.pcSet[t.A] = true
+		r.pcSet[t.B] = true
+	}
 }
 
 // concretize forks over the feasible values of t (at most limit, else BOUND-HIT).
@@ -414,6 +448,9 @@ func (w *World) concretize(t *Term, limit int) uint64 {
 			panic(pathEnd{"bound-hit"})
 		}
 		r := w.run
+		if dv, ok := w.detEval(t); ok {
+			return dv
+		}
 		// the witness satisfies the path condition, so if t is already pinned it evaluates to the pinned value
 		v := Eval(t, r.witness, r.evalMemo)
 		c := w.tt.Cmp(OpEq, t, w.tt.Const(v, t.W))
@@ -494,6 +531,9 @@ func (w *World) check(cond value, label string, where string) {
 		}
 	case *Term:
 		if r.pcSet[c] {
+			return
+		}
+		if v, ok := w.detEval(c); ok && v != 0 {
 			return
 		}
 		if r.cursor < len(r.trail) {
